@@ -446,6 +446,9 @@ func main() {
 		frontier = next
 		done = d
 	}
+	if chk.Violations() == 0 {
+		lifecycle(chk)
+	}
 	chk.Set("states", states)
 	chk.Set("transitions", transitions)
 	chk.Set("traces_validated_against_impl", transitions)
@@ -455,9 +458,120 @@ func main() {
 		chk.Distinct(k)
 	}
 	chk.Sample("look:5:C3:0 rem:5:C3:valid flood:5 look:5:C3:0")
-	chk.Set("rule", "BFS over histories of {lookup(instance 5|6, key of C1 / prefix of C1 / C2 / C3 / never-broadcast W), own broadcast, remote broadcast valid or rejected for each reason (undecodable, empty, malformed, past / too distant instance, timestamp too old / in the future, base contradicting the current input), admission followed by lookups of every prefix, flood of capacity+1 unsolicited chains, prune(5|6|7), progress change, clock tick} on the real PubSubChainExchange (wanted capacity 8, discovered capacity 6), deduplicated on (both LRU caches in order, reference bookkeeping)")
-	chk.Assume("validator and caching routines are driven synchronously through an injected accessor (no network, no concurrent lookups); mock clock")
+	chk.Set("rule", "BFS over histories of {lookup(instance 5|6, key of C1 / prefix of C1 / C2 / C3 / never-broadcast W), own broadcast, remote broadcast valid or rejected for each reason (undecodable, empty, malformed, past / too distant instance, timestamp too old / in the future, base contradicting the current input), admission followed by lookups of every prefix, flood of capacity+1 unsolicited chains, prune(5|6|7), progress change, clock tick} on the real PubSubChainExchange (wanted capacity 8, discovered capacity 6), deduplicated on (both LRU caches in order, reference bookkeeping); plus the started service end to end: {own, remote} broadcast in both orders x {start context cancelled after Start, kept}, every prefix must become retrievable")
+	chk.Assume("BFS part: validator and caching routines are driven synchronously through an injected accessor (no network, no concurrent lookups); mock clock. Life-cycle part: two started services over mocknet gossipsub, real clock; 'never retrievable' = not within two minutes of polling and re-broadcasting")
 	chk.Finish()
+}
+
+// lifecycle: the started service end to end (Start's own goroutines, real Broadcast, a second node on the same
+// topic), for every order of {own broadcast, remote broadcast} x {the context given to Start is cancelled right
+// after Start returned, or kept}: F3.Start documents that cancelling its context does not stop a started service,
+// and hands that context down to the chain exchange.  An admitted chain and every prefix of it must become
+// retrievable by key; nothing bounds how fast, so a miss is only reported after two minutes of polling and
+// re-broadcasting (each step normally takes milliseconds).
+func lifecycle(chk *vcommon.Check) {
+	mk := func(ps *pubsub.PubSub) *chainexchange.PubSubChainExchange {
+		cx, err := chainexchange.NewPubSubChainExchange(
+			chainexchange.WithProgress(func() gpbft.InstanceProgress {
+				return gpbft.InstanceProgress{Instant: gpbft.Instant{ID: 5, Round: 0, Phase: gpbft.PREPARE_PHASE}, Input: chains["C1"]}
+			}),
+			chainexchange.WithPubSub(ps),
+			chainexchange.WithTopicName("/verif/chainexchange-lifecycle"),
+			chainexchange.WithMaxDiscoveredChainsPerInstance(discoveredCap),
+			chainexchange.WithMaxWantedChainsPerInstance(wantedCap),
+			chainexchange.WithMaxInstanceLookahead(lookahead),
+			chainexchange.WithMaxTimestampAge(maxAge),
+		)
+		if err != nil {
+			panic(err)
+		}
+		return cx
+	}
+	n := 0
+	for _, cancelStart := range []bool{false, true} {
+		for _, ownFirst := range []bool{true, false} {
+			mn := mocknet.New()
+			h1, _ := mn.GenPeer()
+			h2, _ := mn.GenPeer()
+			_ = mn.LinkAll()
+			_ = mn.ConnectAllButSelf()
+			ps1, err := pubsub.NewGossipSub(bg, h1)
+			if err != nil {
+				panic(err)
+			}
+			ps2, err := pubsub.NewGossipSub(bg, h2)
+			if err != nil {
+				panic(err)
+			}
+			subject, peer := mk(ps1), mk(ps2)
+			startCtx, cancel := context.WithCancel(bg)
+			if err := subject.Start(startCtx); err != nil {
+				panic(err)
+			}
+			if err := peer.Start(bg); err != nil {
+				panic(err)
+			}
+			if cancelStart {
+				cancel()
+			}
+			rep := map[string]any{"kind": "lifecycle", "start_context_cancelled": cancelStart, "own_first": ownFirst}
+			retrievable := func(c *gpbft.ECChain, send func(ts int64)) bool {
+				for t0, k := time.Now(), int64(0); time.Since(t0) < 2*time.Minute; k++ {
+					send(time.Now().UnixMilli() + k%2) // a fresh message each time (re-broadcast)
+					for w := 0; w < 20; w++ {
+						all := true
+						for l := 1; l <= c.Len(); l++ {
+							pre := c.Prefix(l - 1)
+							got, ok := subject.GetChainByInstance(bg, 5, pre.Key())
+							all = all && ok && got.Eq(pre)
+						}
+						if all {
+							return true
+						}
+						time.Sleep(10 * time.Millisecond)
+					}
+				}
+				return false
+			}
+			own := func() bool {
+				c := chains["C1"]
+				return retrievable(c, func(ts int64) {
+					_ = subject.Broadcast(bg, chainexchange.Message{Instance: 5, Chain: c, Timestamp: ts})
+				})
+			}
+			remote := func() bool {
+				c := chains["C3"]
+				return retrievable(c, func(ts int64) {
+					_ = peer.Broadcast(bg, chainexchange.Message{Instance: 5, Chain: c, Timestamp: ts})
+				})
+			}
+			steps := []struct {
+				name string
+				f    func() bool
+			}{{"own", own}, {"remote", remote}}
+			if !ownFirst {
+				steps[0], steps[1] = steps[1], steps[0]
+			}
+			for _, st := range steps {
+				n++
+				if !st.f() {
+					chk.Violation("admitted-chain-never-retrievable:"+st.name, fmt.Sprintf("started service (start context cancelled after Start: %v): a valid %s broadcast for the current instance, repeated for two minutes, never became retrievable by key with all its prefixes", cancelStart, st.name), rep)
+					break
+				}
+			}
+			cancel()
+			_ = subject.Shutdown(bg)
+			_ = peer.Shutdown(bg)
+			_ = mn.Close()
+			if chk.Violations() > 0 {
+				break
+			}
+		}
+		if chk.Violations() > 0 {
+			break
+		}
+	}
+	chk.Set("lifecycle_steps", n)
 }
 
 func doReplay(path string) int {
